@@ -40,6 +40,10 @@ ASSUMPTIONS = [
     "no layer is created, renamed or deleted between opening and saving (C01/C06); top-level parts count as loaded",
     "info values are valid for format 3 and convert to formats 2/1 without change of value (integers, strings, the "
     "enumerations ufoLib maps one to one)",
+    "a feature header's opening brace is not followed on the same line by another feature header (nested feature "
+    "blocks are not FEA; the splitter would start a block in the middle of that line)",
+    "which glyphs of a layer are loaded is compared only for the layers a save determines (all of them on a save-as or "
+    "below format 3; loading a composite glyph loads its bases, which the model does not follow)",
     "a save that fails does so by raising from a validation inside ufoLib (no injected I/O faults here: C18)",
 ]
 TRUSTED = ["fontTools.ufoLib reader/writer and its info/kerning conversion tables (used by defcon and, independently, by the "
@@ -55,6 +59,10 @@ HINT_KEYS = {"postscriptBlueFuzz": "blueFuzz", "postscriptBlueScale": "blueScale
              "postscriptFamilyBlues": "familyBlues", "postscriptFamilyOtherBlues": "familyOtherBlues"}
 ROBOFAB_KEYS = ["org.robofab.opentype.classes", "org.robofab.opentype.features", "org.robofab.opentype.featureorder",
                 "org.robofab.postScriptHintData"]
+# a header right after another header's opening brace, on the same line: the splitter (which searches the rest of
+# the text after each header) takes it for a block start although it is not at a line start.  Nested feature blocks
+# are not FEA; such texts are compared with the model but not judged by the oracle.
+NESTED_HEADER = re.compile(r"feature[ \t\n]+\w{4}[ \t\n]*\{[ \t]*feature[ \t\n]+\w{4}[ \t\n]*\{")
 GEN_FILE = os.path.join("DefconModel", "Gen", "InfoAttrs.lean")
 
 EXTRA_INFO = {
@@ -857,10 +865,14 @@ def model_lines(case):
 # implementation side
 # ---------------------------------------------------------------------------------------
 
-def _lazy(font):
+def _lazy(font, t, save_as):
+    """what is still not loaded, for the layers whose state this save determines"""
     layers = []
     for ln in font.layers.layerOrder:
         layer = font.layers[ln]
+        is_default = layer == font.layers.defaultLayer
+        if not ((not (is_default and not save_as)) if t < 3 else save_as):
+            continue
         layers.append([ln, enc_set(sorted(n for n in layer.keys() if n not in layer._glyphs))])
     return [layers, enc_set(sorted(n for n, e in font.images._data.items() if e["data"] is None)),
             enc_set(sorted(n for n, e in font.data._data.items() if e["data"] is None))]
@@ -993,7 +1005,9 @@ def run_pure(case):
             order = lib.get(ROBOFAB_KEYS[2]) or []
             rep = len(set(order)) < len(order)
             stats["v1.repeated_tag" if rep else "v1.distinct_tags"] = stats.get("v1.repeated_tag" if rep else "v1.distinct_tags", 0) + 1
-            if ws_norm_blocks(back) != ws_norm_blocks(op[1]):
+            if NESTED_HEADER.search(op[1]):
+                stats["v1.nested_header_not_judged"] = stats.get("v1.nested_header_not_judged", 0) + 1
+            elif ws_norm_blocks(back) != ws_norm_blocks(op[1]):
                 viol.append(dict(clause="C16/features-via-lib", step=i, op=op,
                                  signature="C16/features-via-lib/%s" % ("repeated-tag" if rep else "distinct-tags"),
                                  expected=ws_norm_blocks(op[1])[:12], observed=ws_norm_blocks(back)[:12]))
@@ -1122,7 +1136,7 @@ def run_font(case, tmpd):
         # --- the UFO that was written, read back raw
         try:
             disk = raw_disk(font.path)
-            outs.append([Atom("ok"), [Atom("some"), enc_disk(disk, True)], _lazy(font)])
+            outs.append([Atom("ok"), [Atom("some"), enc_disk(disk, True)], _lazy(font, t, fmt_before != t or mode != "inplace")])
         except Exception as e:
             outs.append([Atom("err"), Atom("unreadable")])
             outs.append([Atom("err"), Atom("reopen")])
@@ -1236,7 +1250,7 @@ def check_reopen(V, mem, got, maps2, disk, t, fmt_before, maps, step, op, stats)
             return V("reopen-differs", "%s/features" % tag, step=step, op=op, expected=e["features"], observed=got["features"])
     else:
         a, b = ws_norm_blocks(e["features"]), ws_norm_blocks(got["features"])
-        if a != b:
+        if a != b and not NESTED_HEADER.search(e["features"] or ""):
             tags = re.findall(r"(?m)^\s*feature\s+(\w{4})\s*\{", e["features"] or "")
             rep = len(set(tags)) < len(tags)
             stats["f28_hits"] = stats.get("f28_hits", 0) + (1 if rep else 0)
